@@ -28,7 +28,7 @@ from harness import core, fsbox, sched, tlc
 from checks import loader_common as lc
 
 SCENARIOS = ['main_edit_dir_override', 'dir_edit', 'defaults_permissive', 'deprecated', 'alias_eval']
-NAMES = ['n', 'm', 'o', 'default']
+NAMES = ['n', 'm', 'o', 'u', 'default']
 ROLES = ['a', 'b', 'd1r', 'd2r', 'dflt', 'old', 'nobody']
 
 MC_CFG = """SPECIFICATION Spec
@@ -62,10 +62,10 @@ ANY = {'k': 'any'}
 def scenario_files(sc):
     """(old files, new files) as {file: {name: body}}; mirrors FsOld/FsNew of MC_LoaderMT"""
     if sc == 'main_edit_dir_override':
-        old = {'main': {'n': R('a')}, 'd1/a': {'n': R('d1r')}}
-        return old, {'main': {'n': R('b')}}
+        old = {'main': {'n': R('a'), 'm': R('a')}, 'd1/a': {'n': R('d1r')}}
+        return old, {'main': {'n': R('b'), 'm': R('a')}}
     if sc == 'dir_edit':
-        old = {'main': {'n': R('a')}, 'd1/a': {'n': R('d1r')}}
+        old = {'main': {'n': R('a'), 'm': R('a')}, 'd1/a': {'n': R('d1r')}}
         return old, {'d1/a': {'n': R('d2r')}}
     if sc == 'defaults_permissive':
         return {'main': {'default': ANY, 'm': R('a')}}, {'main': {'default': ANY, 'm': R('b')}}
@@ -135,6 +135,13 @@ class Env:
         fr = [[n, absb(rd.check)] for n, rd in list(self.e.file_rules.items()) if n in NAMES]
         return rules, fr
 
+    def extra(self):
+        """aspects of the shared store beyond its contents that a decision depends on"""
+        x = []
+        if getattr(self.e.rules, 'default_rule', None) != self.e.default_rule:
+            x.append('store.default_rule=%r' % (getattr(self.e.rules, 'default_rule', None),))
+        return ','.join(x)
+
     def final(self):
         out = {}
         for n in NAMES:
@@ -146,10 +153,10 @@ class Env:
         self.box.close()
 
 
-def fmt_state(rules, fr):
+def fmt_state(rules, fr, extra=''):
     def one(p):
         return ','.join('%s=%s' % (n, b['k'] if b['k'] != 'roles' else '+'.join(b['r']) or '!') for n, b in sorted(p))
-    return 'rules{%s}|file_rules{%s}' % (one(rules), one(fr))
+    return 'rules{%s}|file_rules{%s}' % (one(rules), one(fr)) + (('|' + extra) if extra else '')
 
 
 def schedule_A_parked(sc, rng, k, q, role):
@@ -163,6 +170,7 @@ def schedule_A_parked(sc, rng, k, q, role):
 
         def at_park(p):
             case['rules'], case['frules'] = env.project()
+            case['_extra'] = env.extra()
             done, holder, t = sched.run_in_thread(lambda: env.e.enforce(q, {}, {'roles': [role]}), 1.5)
             return done, holder, t
         out = sched.run_parked(core.REPO, k, lambda: env.e.enforce(q, {}, {'roles': [a_role]}), at_park)
@@ -250,6 +258,7 @@ def schedule_BA_parked(sc, rng, j, k, q, role, phase):
         a = sched.TracedCall(core.REPO, k, lambda: env.e.enforce(q, {}, {'roles': ['nobody']}))
         a_parked = a.start_and_wait()
         case['rules'], case['frules'] = env.project()
+        case['_extra'] = env.extra()
         case['_where'] = a.p.where
         b.resume()
         finished = b.join(1.5)
@@ -318,33 +327,55 @@ def run(ctx):
         finally:
             env.close()
         old, edit = scenario_files(sc)
-        roles = {'main_edit_dir_override': ['b', 'd1r'], 'dir_edit': ['a', 'd1r', 'd2r'], 'defaults_permissive': ['nobody', 'dflt'],
-                 'deprecated': ['a', 'b', 'dflt'], 'alias_eval': ['a', 'b', 'd2r']}[sc]
-        step = 6 if q else 1
+        asks = {'main_edit_dir_override': [('n', 'b'), ('n', 'd1r'), ('m', 'a')],
+                'dir_edit': [('n', 'a'), ('n', 'd1r'), ('n', 'd2r'), ('m', 'a')],
+                'defaults_permissive': [('n', 'nobody'), ('n', 'dflt'), ('u', 'nobody'), ('m', 'b')],
+                'deprecated': [('n', 'a'), ('n', 'b'), ('n', 'dflt')],
+                'alias_eval': [('n', 'a'), ('n', 'b'), ('n', 'd2r')]}[sc]
+        # park points: in the quick tier those line events of the reloading call at which the shared
+        # store (contents, file-rule record, default rule) has just changed - every distinct window is
+        # visited once - plus a regular sample; in the thorough tier every line event
+        change_points = []
+        env = Env(sc, rng)
+        try:
+            env.do_edit()
+            last = [None]
+
+            def on_line(k):
+                st = (fmt_state(*env.project()), env.extra(), bool(env.e.rules))
+                if st != last[0]:
+                    change_points.append(k)
+                    last[0] = st
+            sched.count_lines(core.REPO, lambda: env.e.enforce('n', {}, {'roles': ['nobody']}), on_line)
+        finally:
+            env.close()
+        if q:
+            ks = sorted(set(change_points) | {k + 1 for k in change_points} | set(range(1, na + 1, 40)))
+            ks = [k for k in ks if 1 <= k <= na]
+            js = sorted(set(range(1, nb + 1, 12)) | {1, 2, nb})
+        else:
+            ks = list(range(1, na + 1))
+            js = list(range(1, nb + 1))
+        ctx.cover.setdefault('state_change_points', {})[sc] = change_points
         cases = []
-        seen_states = set()
-        for role in roles:
-            for k in range(1, na + 1):
-                if step > 1 and k % step and k > 3:
-                    continue
-                c = schedule_A_parked(sc, rng, k, 'n', role)
+        for qn, role in asks:
+            for k in ks:
+                c = schedule_A_parked(sc, rng, k, qn, role)
                 if c:
                     cases.append(c)
-            for j in range(1, nb + 1):
-                if step > 1 and j % step and j > 3:
-                    continue
-                c = schedule_B_parked(sc, rng, j, 'n', role)
+            for j in js:
+                c = schedule_B_parked(sc, rng, j, qn, role)
                 if c:
                     cases.append(c)
         # two switches with the reloader still unfinished: B parked after its own
         # load step / after its look-up, A parked at every line of its reload
         pts, _n = phase_points(sc, rng)
         for phase, j in sorted(pts.items()):
-            for role in roles:
-                for k in range(1, na + 1):
-                    if step > 1 and k % (step * 2) and k > 3:
+            for qn, role in asks:
+                for k in (ks if not q else sorted(set(change_points) | {c_ + 1 for c_ in change_points})):
+                    if k > na:
                         continue
-                    c = schedule_BA_parked(sc, rng, j, k, 'n', role, phase)
+                    c = schedule_BA_parked(sc, rng, j, k, qn, role, phase)
                     if c:
                         cases.append(c)
         n_sched += len(cases)
@@ -360,6 +391,8 @@ def run(ctx):
                 # (the file-rule record only where it feeds the decision: deprecated defaults)
                 st = fmt_state(c['rules'], c['frules'] if sc == 'deprecated' else [])
                 st = st if sc == 'deprecated' else st.split('|')[0]
+                if c.get('_extra'):
+                    st += '|' + c['_extra']
                 key = '%s:%s:%s %s role %s at %s' % (sc, c['shape'], c['q'], 'allows' if c['allow'] else 'denies', c['role'], st)
                 what = 'decision for %s (role %s) is neither that of the old nor of the new policy, or the settled rule store is not the new policy' % (c['q'], c['role'])
             ctx.violation(key, what, {'scenario': sc, 'shape': c['shape'], 'park_point_line_event': c['_k'], 'parked_at': c.get('_where'),
@@ -375,6 +408,6 @@ def run(ctx):
             ctx.sample({'scenario': sc, 'shape': c['shape'], 'park_event': c['_k'], 'where': c.get('_where'),
                         'state': fmt_state(c['rules'], c['frules']), 'decision': [c['q'], c['role'], c['allow']]})
     ctx.cover.update({'schedules': n_sched, 'schedules_with_wrong_decision': n_bad, 'model_drift_park_points': drift,
-                      'park_points': 'every line event' if not q else 'the first 3 and every 4th line event'})
+                      'park_points': 'every line event' if not q else 'every line event at which the shared store changes (+1), plus every 25th'})
     ctx.assumptions += ['preemption at source-line granularity inside files under oslo_policy/ (the quantifier of C20); CPython may also switch inside a line',
                         'threads are real threads handed over with events; the schedule is deterministic']
